@@ -26,7 +26,7 @@ Definition site_fn (n : N) : option (str -> str) :=
   if n =? 1 then Some site_enum_value else if n =? 2 then Some site_meta_key else if n =? 3 then Some site_disc_prop
   else if n =? 4 then Some site_disc_value else if n =? 5 then Some site_query_key else if n =? 6 then Some site_header_key
   else if n =? 7 then Some site_media_type else if n =? 8 then Some site_default else if n =? 9 then Some site_alias_doc
-  else if n =? 10 then Some site_field_comment else None.
+  else if n =? 10 then Some site_field_comment else if n =? 17 then Some site_enum_default else None.
 
 Definition site_case := (N * (str * (list str * str)))%type.
 Definition site_model_ok (c : site_case) : bool :=
@@ -51,25 +51,18 @@ Definition site_model_ok (c : site_case) : bool :=
         | [pre; post; table] => str_eqb (pre ++ site_media_repr (fun c => existsb (N.eqb c) table) t ++ post) out
         | _ => false
         end
-      else if n =? 17 then   (* aux = [text before; text after; str.upper(t) as computed by Python] *)
-        match aux with
-        | [pre; post; up] => str_eqb (pre ++ site_enum_default_u up ++ post) out
-                             && (if forallb is_ascii t then str_eqb (site_enum_default t) (site_enum_default_u up) else true)
-        | _ => false
-        end
       else false
   end.
 
 (* guard of site n on text t *)
 Definition site_safe (n : N) (t : str) : bool :=
-  if (17 <=? n) && (n <=? 19) then safe_enum_default t
-  else if ((5 <=? n) && (n <=? 7)) || (n =? 20) then in_range t     (* ASCII-only escapers: every string *)
+  if ((5 <=? n) && (n <=? 7)) || (n =? 20) then in_range t     (* ASCII-only escapers: every string *)
   else scalar t.                                                     (* every other site: every Unicode scalar string *)
 (* finding bit of site n: 1 F15a enum  2 F15b Meta  3 F15c alias  4 F15d DocumentationWriter  5 F15e comment
    6 F15f query/header keys  7 F15g client docstring  8 F15h default  9 F15i discriminator  10 F15j media type
    11 F15k raw docstring templates (wrapper classes, overload docstring, tag docstrings) *)
-Definition site_finding (n : N) : N :=   (* only the enum-typed default (F15l, bit 12) is still open; F15a-k are fixed *)
-  if (17 <=? n) && (n <=? 19) then 12 else 0.
+Definition site_finding (n : N) : N :=   (* no open finding: F15a-l are fixed *)
+  0.
 Definition findings : list N := [1; 2; 3; 4; 5; 6; 7; 8; 9; 10; 11; 12].
 Definition guards_for (ns : list N) (t : str) : list bool :=
   map (fun j => forallb (fun n => negb (site_finding n =? j) || site_safe n t) ns) findings.
@@ -113,14 +106,6 @@ Definition site_pred (n : N) (t : str) : bool :=
         inert_doc_b (q3 ++ 10 :: site_client_desc t ++ 10 :: q3)
       else if n =? 20 then
         match lex_lit (site_media_repr (fun _ => false) t) with Some (v, []) => str_eqb v t | _ => false end
-      else if n =? 17 then   (* ASCII text: the attribute name is computed by the model; after the name only blanks or a comment *)
-        let (nm, r) := span is_ident_char (site_enum_default t) in
-        is_ident nm && match dropwhile (fun c => (c =? 32) || (c =? 9) || (c =? 12)) r with
-                       | [] => true
-                       | c :: r' => (c =? 35) && single_physical_line r'
-                       end
-      else if n =? 18 then true      (* non-ASCII text: Python's str.upper + str.isidentifier verdict supplied by the harness *)
-      else if n =? 19 then false
       else inert_doc_b (block_line t)
   end.
 Definition pipe_model (c : list N * str) : bool := forallb (fun n => site_pred n (snd c)) (fst c).
